@@ -380,7 +380,18 @@ func c12Report(c *Ctx) {
 			}
 		})
 		if len(vs) == 0 {
-			// buildRA failed
+			// only a failure to build our own RA excuses a received RA from verification
+			buildFailed := false
+			for _, a := range p.Atoms {
+				x, y, op, ok := effCmp(a)
+				if !ok || !exprIsNil(y) || op != token.NEQ {
+					continue
+				}
+				if b, i := stripExtract(x); i == 1 && exprCallIs(b, PkgCorerad, "Advertiser", "buildRA") {
+					buildFailed = true
+				}
+			}
+			c.R.Check(buildFailed, "R-C12-4", fn+":every-received-ra-verified@"+pathShape(p), fn, c.pos(h.Pos()), "a received router advertisement leaves handle without verifyRAs although buildRA succeeded", "every received RA is compared with our own unless ours cannot be built", "inconsistencies of some received RAs are never reported")
 			c.R.Check(len(ems) == 0 && len(hooks) == 0, "R-C12-4", fn+":no-verdict-without-own-ra@"+pathShape(p), fn, c.pos(h.Pos()), fmt.Sprintf("%d counter(s), %d hook(s) without a verification", len(ems), len(hooks)), "nothing reported when our own RA cannot be built", "report without verification")
 			continue
 		}
